@@ -14,8 +14,8 @@ const prelude = `(set-option :produce-models true)
 (set-logic ALL)
 (declare-datatypes ((Slice 0)) (((mk_slice (s_arr Int) (s_off Int) (s_len Int) (s_cap Int)))))
 (declare-datatypes ((Iface 0)) (((mk_iface (i_dt Int) (i_pl Int)))))
-(define-fun wrapu ((x Int) (m Int)) Int (mod x m))
-(define-fun wraps ((x Int) (m Int) (h Int)) Int (- (mod (+ x h) m) h))
+(define-fun wrapu ((x Int) (m Int)) Int (ite (and (<= 0 x) (< x m)) x (ite (and (< x 0) (>= x (- m))) (+ x m) (ite (and (>= x m) (< x (+ m m))) (- x m) (mod x m)))))
+(define-fun wraps ((x Int) (m Int) (h Int)) Int (ite (and (<= (- h) x) (< x h)) x (ite (and (<= h x) (< x (+ h m))) (- x m) (ite (and (< x (- h)) (>= x (- (- h) m))) (+ x m) (- (mod (+ x h) m) h)))))
 (define-fun addwrap_s ((x Int) (m Int) (h Int)) Int (ite (>= x h) (- x m) (ite (< x (- h)) (+ x m) x)))
 (define-fun addwrap_u ((x Int) (m Int)) Int (ite (>= x m) (- x m) (ite (< x 0) (+ x m) x)))
 (define-fun tdiv ((x Int) (y Int)) Int (ite (>= x 0) (div x y) (- (div (- x) y))))
